@@ -194,6 +194,20 @@ class Prop(BaseProp):
                 compare("rerun-into-existing-output", read_tree(out_dir("rerun")), ref)
             else:
                 res.violate("variant-run-failed:rerun", str(o.exc)[:200], wit)
+            # (i) the output directory was filled by an earlier run with other settings that give pages of the same length
+            #     (a different prefix of equal length): content, not size or age, decides what is on disk afterwards
+            eff = prefix if prefix else ("proj" if not single else None)
+            if eff:
+                other = eff[:-1] + ("q" if eff[-1] != "q" else "z")
+                flags_other = [a for a in flags if a not in ("-p", prefix)] + ["-p", other]
+                o = runner.run_main([target(loc1), "-o", out_dir("samesize")] + flags_other, cwd=sb, home=home)
+                flags_now = flags if prefix else flags + ["-p", eff]
+                o = runner.run_main([target(loc1), "-o", out_dir("samesize")] + flags_now, cwd=sb, home=home)
+                res.count("history_runs")
+                if o.ok:
+                    compare("rerun-after-same-length-output", read_tree(out_dir("samesize")), ref)
+                else:
+                    res.violate("variant-run-failed:samesize", str(o.exc)[:200], wit)
             # (g) tree plus extra files: pages of the original files unchanged
             if not single:
                 loc3 = os.path.join(sb, "third", "proj")
